@@ -123,7 +123,7 @@ def ell(ys, xs, angle, q):
     return Poly.fn("sqrt", xe * xe + (ye / q) * (ye / q))
 
 
-def wiring(ctx, p):
+def wiring(ctx, p, K=None):
     """Geometry2D methods hand their own (shape_native, pixel_scales, origin) triple to the util of the same name"""
     rule = "C02.wiring"
     c = p.cls("autoarray.geometry.geometry_2d:Geometry2D")
@@ -155,6 +155,11 @@ def wiring(ctx, p):
             if operand:
                 want[operand[0]] = operand[1]
             ok = b == want
+            if not ok and K is not None:
+                # however the call is spelled (e.g. a centre computed once by the geometry and passed in): the util evaluated under this call's arguments must
+                # compute exactly what it computes for (shape_native, pixel_scales, origin) of the geometry itself
+                ok = _same_result(K, c, m, cs[0], callee, want)
+                det += "  [decided by evaluating the util under the call's arguments]"
         n += 1
         ctx.ob(rule, f"{c.key}.{meth}", ok, where=m, node=cs[0] if cs else m.node, construct=det,
                message="the geometry method must call its util with the geometry's OWN shape_native, pixel_scales and origin (and the caller's operand)")
@@ -166,6 +171,44 @@ def wiring(ctx, p):
         opn = [a for a in m.params if a != "self"][0]
         ok = len(rets) == 1 and isinstance(rets[0].value, ast.Call) and norm_text(rets[0].value.func) == cls and norm_text(wire.kw(rets[0].value).get("mask")) == f"{opn}.mask"
         ctx.ob(rule, f"{c.key}.{meth}:mask", ok, where=m, node=rets[0] if rets else m.node, construct=norm_text(rets[0].value)[:120] if rets else "", message="the result must be returned on the operand grid's mask")
+
+
+def _same_result(K, c, m, call, callee, want) -> bool:
+    """does `callee` evaluated under the arguments of `call` (written inside method m of the geometry class c) produce the same stores / result as under the
+    canonical arguments `want` (texts over self.shape_native / self.pixel_scales / self.origin / the operand)?"""
+    from ..keval import Summary
+    fields = {"self.shape_native": (H, W), "self.pixel_scales": (s0, s1), "self.origin": (oy, ox)}
+
+    def prop(name, depth=0):
+        mm = c.lookup(name)
+        if mm is None or depth > 4:
+            return None
+        return K.summarize(mm, {"self": SelfRef(fields, lambda n_: prop(n_, depth + 1))}).ret
+    env = {"self": SelfRef(fields, prop)}
+    for a in m.params:
+        if a != "self":
+            env[a] = Ref(a)
+    _install_self_support(K)
+
+    def args_of(texts_or_nodes):
+        out = {}
+        for k, v in texts_or_nodes.items():
+            e = ast.parse(v, mode="eval").body if isinstance(v, str) else wire.strip_np_array(v)
+            out[k] = K.ev(e, env, Summary(m), m, (), (), 0)
+        return out
+    try:
+        Sa = K.summarize(callee, args_of(wire.kw(call, callee)))
+        Sb = K.summarize(callee, args_of(want))
+    except Exception:  # noqa - not evaluable: not decided in favour
+        return False
+
+    def shape(S):
+        sts = [(s.arr, s.op, tuple(repr(i) for i in s.idx), repr(value_poly(s.value)), repr(list(s.guards)), tuple((l.var, repr(l.lo), repr(l.hi)) for l in s.loops)) for s in S.stores]
+        return sts, repr(S.ret)
+    import re
+    # (fresh-allocation numbers of arrays made by callees differ between two evaluations)
+    a, b = (re.sub(r"#\d+", "#", repr(shape(S_))) for S_ in (Sa, Sb))
+    return a == b and "None" not in repr(a) and "Top" not in repr(a)
 
 
 def extent_rule(ctx, p, K):
@@ -316,7 +359,7 @@ def run(ctx):
     mask_constructor(ctx, K, f"{M2}:mask_2d_elliptical_annular_from", ["inner_major_axis_radius", "inner_axis_ratio", "inner_phi", "outer_major_axis_radius", "outer_axis_ratio", "outer_phi"],
                      lambda ys, xs: AND(CMP(S_("inner_major_axis_radius"), "<=", ell(ys, xs, S_("inner_phi"), S_("inner_axis_ratio"))),
                                         CMP(ell(ys, xs, S_("outer_phi"), S_("outer_axis_ratio")), "<=", S_("outer_major_axis_radius"))))
-    wiring(ctx, p)
+    wiring(ctx, p, K)
 
 
 def compositions(ctx, p, K):
@@ -358,6 +401,11 @@ def compositions(ctx, p, K):
                     # rename the producer's loop atom to the consumer's
                     return f_.subst(lambda a2: Poly.atom(("i", "G", (kb,) + a2[2][1:])) if (a2[0] == "i" and a2[1] == "G") else None)
                 return None
+            if v is None:
+                # (e.g. a value that depends on an optional argument the contract does not mention)
+                det.append(f"comp {comp!r}: value is not an algebraic form")
+                good = False
+                continue
             r = v.subst(sub)
             det.append(f"comp {comp!r}: {short(r, 80)}")
             good = good and r == E_("G", kb, comp)
